@@ -138,6 +138,16 @@ func c09ExtFacts(e *ext) {
 		}
 		fmt.Fprintf(&e.out, "def default%s : Int := %d\n", n, v)
 	}
+	// 1b. (extension 4) the other integer defaults the strategy model uses (Model/C09Strategy.lean defaultV)
+	for _, n := range []string{"CPUReclaimThresholdPercent", "MemoryReclaimThresholdPercent", "DegradeTimeMinutes", "UpdateTimeThresholdSeconds"} {
+		v, ok := got[n]
+		if !ok {
+			e.fail("default %s not found", n)
+		}
+		fmt.Fprintf(&e.out, "def default%s : Int := %d\n", n, v)
+	}
+	c09DeepCopyFacts(e)
+	c09ValidFacts(e)
 	// 2. the resources each plugin owns
 	for _, pl := range [][2]string{{"batch", "pkg/slo-controller/noderesource/plugins/batchresource"}, {"mid", "pkg/slo-controller/noderesource/plugins/midresource"}} {
 		var names []string
@@ -419,4 +429,131 @@ func c09Ext3Facts(e *ext) {
 		eps = c09Render(x)
 	}
 	fmt.Fprintf(&e.out, "def ratioDiffEpsilon : String := %s\n", leanStr(eps))
+}
+
+// c09DeepCopyFacts (extension 4): the pointer fields of configuration.ColocationStrategy and the fields its generated
+// DeepCopyInto clones (`if in.X != nil { in, out := &in.X, &out.X; *out = new(T); … }`).  A pointer field that is not
+// cloned is shared between the config cache and every "copy" handed to a reconcile.
+func c09DeepCopyFacts(e *ext) {
+	d := "apis/configuration"
+	var ptrs, cloned []string
+	foundStruct := false
+	for _, f := range e.dir(d) {
+		for _, decl := range f.Decls {
+			gd, ok := decl.(*ast.GenDecl)
+			if !ok {
+				continue
+			}
+			for _, sp := range gd.Specs {
+				ts, ok := sp.(*ast.TypeSpec)
+				if !ok || ts.Name.Name != "ColocationStrategy" {
+					continue
+				}
+				st, ok := ts.Type.(*ast.StructType)
+				if !ok {
+					continue
+				}
+				foundStruct = true
+				for _, fl := range st.Fields.List {
+					if _, ok := fl.Type.(*ast.StarExpr); ok {
+						for _, n := range fl.Names {
+							ptrs = append(ptrs, n.Name)
+						}
+					}
+				}
+			}
+		}
+	}
+	if !foundStruct {
+		e.fail("type ColocationStrategy not found")
+	}
+	if fd := e.funcDecl(d, "ColocationStrategy", "DeepCopyInto"); fd == nil {
+		e.fail("ColocationStrategy.DeepCopyInto not found")
+	} else {
+		for _, stmt := range fd.Body.List {
+			is, ok := stmt.(*ast.IfStmt)
+			if !ok {
+				continue
+			}
+			be, ok := is.Cond.(*ast.BinaryExpr)
+			if !ok || be.Op != token.NEQ {
+				continue
+			}
+			sel, ok := be.X.(*ast.SelectorExpr)
+			if !ok {
+				continue
+			}
+			if id, ok := sel.X.(*ast.Ident); !ok || id.Name != "in" {
+				continue
+			}
+			// the body must allocate: `*out = new(T)`
+			allocates := false
+			for _, bs := range is.Body.List {
+				as, ok := bs.(*ast.AssignStmt)
+				if !ok || len(as.Lhs) != 1 || len(as.Rhs) != 1 {
+					continue
+				}
+				if st, ok := as.Lhs[0].(*ast.StarExpr); ok {
+					if id, ok := st.X.(*ast.Ident); ok && id.Name == "out" {
+						if call, ok := as.Rhs[0].(*ast.CallExpr); ok {
+							if fn, ok := call.Fun.(*ast.Ident); ok && fn.Name == "new" {
+								allocates = true
+							}
+						}
+					}
+				}
+			}
+			if allocates {
+				cloned = append(cloned, sel.Sel.Name)
+			}
+		}
+	}
+	sort.Strings(ptrs)
+	sort.Strings(cloned)
+	q := func(l []string) string {
+		parts := make([]string, len(l))
+		for i, s := range l {
+			parts[i] = leanStr(s)
+		}
+		return "[" + strings.Join(parts, ", ") + "]"
+	}
+	fmt.Fprintf(&e.out, "def colocationStrategyPointerFields : List String := %s\n", q(ptrs))
+	fmt.Fprintf(&e.out, "def colocationStrategyDeepCopyClones : List String := %s\n", q(cloned))
+}
+
+// c09ValidFacts (extension 4): the comparisons of sloconfig.IsColocationStrategyValid, one string per
+// `*strategy.<Field> <op> <const>` in source order (a field with a range check yields two strings).
+func c09ValidFacts(e *ext) {
+	var conds []string
+	fd := e.funcDecl("pkg/util/sloconfig", "", "IsColocationStrategyValid")
+	if fd == nil {
+		e.fail("IsColocationStrategyValid not found")
+	} else {
+		ast.Inspect(fd.Body, func(n ast.Node) bool {
+			be, ok := n.(*ast.BinaryExpr)
+			if !ok {
+				return true
+			}
+			st, ok := be.X.(*ast.StarExpr)
+			if !ok {
+				return true
+			}
+			sel, ok := st.X.(*ast.SelectorExpr)
+			if !ok {
+				return true
+			}
+			if id, ok := sel.X.(*ast.Ident); !ok || id.Name != "strategy" {
+				return true
+			}
+			if lit, ok := be.Y.(*ast.BasicLit); ok {
+				conds = append(conds, sel.Sel.Name+be.Op.String()+lit.Value)
+			}
+			return true
+		})
+	}
+	parts := make([]string, len(conds))
+	for i, c := range conds {
+		parts[i] = leanStr(c)
+	}
+	fmt.Fprintf(&e.out, "def strategyValidConds : List String := [%s]\n", strings.Join(parts, ", "))
 }
